@@ -1,7 +1,7 @@
 //! Recorder for C18b: concurrent evaluations of one shared ruleset on real threads.  It lives in the
 //! probes crate because it needs the evaluation futures to be Send (tokio::spawn): if they are not,
 //! only this binary fails to build (and probe_send reports the violation), not the whole harness.
-//!   threads_rec <cases> <n_threads> <n_evals> <trace.ndjson> <report.json>
+//!   threads_rec <cases> <n_threads> <n_evals> <trace.ndjson> <report.json> [modes, comma separated]
 #[path = "../../../src/exec.rs"]
 mod exec;
 #[path = "../../../src/model.rs"]
@@ -60,8 +60,16 @@ fn run(args: &[String]) -> Result<i32, String> {
     for case in &rulesets {
         // tokio: n_threads workers; tokio4: 4 workers and ten times the evaluations (many suspended evaluations per
         // worker); std: one hand-rolled executor per thread; migrate: started on one thread, completed on another
-        for mode in ["tokio", "tokio4", "std", "migrate"] {
-            let n = match mode { "tokio4" => n_evals * 10, "migrate" => n_evals * 3, _ => n_evals };
+        // hammer: back-to-back evaluations of the call-free rules on every thread; burst: all threads start an evaluation
+        // of a 600-call ruleset at the same instant
+        let only: Option<&str> = args.get(6).map(|s| s.as_str());
+        for mode in ["tokio", "tokio4", "std", "migrate", "hammer", "burst"] {
+            if let Some(o) = only {
+                if !o.split(',').any(|m| m == mode) {
+                    continue;
+                }
+            }
+            let n = match mode { "tokio4" => n_evals * 10, "migrate" => n_evals * 3, "hammer" => n_evals * 150, "burst" => 3, _ => n_evals };
             let r = threads::run_case(case, n_threads, n, mode)?;
             rep.evaluations += r.evaluations;
             for m in r.mismatches {
